@@ -15,6 +15,7 @@ def step (s : St) (line : String) : St × String :=
   | ["up"] => (up s, "ok")
   | ["down"] => (down s, "ok")
   | ["break"] => (break_ s, "ok")
+  | ["fin"] => (break_ s, "ok")     -- an orderly close: the reader marks the connection closed, the next attempt fails
   | ["tell", q] => match q.toNat? with
     | some n => let (s1, ok) := tell s n; (s1, if ok then "sent" else "dead")
     | none => (s, "bad-op")
